@@ -1,6 +1,7 @@
 SPECIFICATION TSpec
 CONSTANTS
   NKeys = 4
+  Mut = "none"
   Policy = "ld"
 POSTCONDITION AllConsumed
 CHECK_DEADLOCK FALSE
